@@ -74,6 +74,8 @@ Definition floyd_warshall (n : nat) (edges : wgraph) (directed : bool) : result 
 Definition sym (edges : wgraph) : wgraph :=
   flat_map (fun e => let '(u, v, w) := e in [(u, v, w); (v, u, w)]) edges.
 
+Definition graph_of (edges : wgraph) (directed : bool) : wgraph := if directed then edges else sym edges.
+
 (* ---- observable comparison ---- *)
 Definition oz_eqb (a b : option Z) : bool :=
   match a, b with None, None => true | Some x, Some y => Z.eqb x y | _, _ => false end.
